@@ -275,6 +275,25 @@ CHECKS = [
      'note': 'Trusted: canonical-form extractor in vf/c17.py, numpy/h5py/'
              'json/xarray as storage libraries. Scalars compared by kind and '
              'value only; keys restricted to identifier-like names.'},
+    {'id': 'C18', 'ref': 'DESIGN.md section 3 C18',
+     'technique': 'runtime monitoring: in-process (and subprocess) CLI runs on '
+                  'generated config files with API-boundary wrappers '
+                  '(Simulation.__init__/from_file/to_file/compute/clean, '
+                  'Survey.select/add_noise, random_noise replay); oracle = '
+                  'independently transcribed option table -> expected API '
+                  'calls executed on the same files (differential CLI vs API)',
+     'text': 'For every documented configuration key and command-line option '
+             '(alone, enumerated every run) and for random combinations, '
+             'override pairs, unknown options, dry runs and save/load/cache/'
+             'clean sequences in all three file formats, the CLI handed '
+             'exactly the documented arguments to the API and wrote the same '
+             'data, misfit, n_observations and gradient as the equivalent API '
+             'calls, rejected every unknown key/option, and computed nothing '
+             'in dry runs.',
+     'note': 'Trusted: the option table in vf/ref_c18.py (transcribed from '
+             'docs/manual/cli.rst and --help, cross-checked against the rst '
+             'at run time), the Simulation/Survey API as comparison partner, '
+             'recorded-and-replayed random noise.'},
     {'id': 'C19', 'ref': 'DESIGN.md section 3 C19',
      'technique': 'client-boundary monitor on Simulation(layered=True) / '
                   'Model.extract_1d with an independent reference model '
